@@ -210,6 +210,24 @@ fn cstr_borrowed<const N: usize>() {
     assert!(hash_of(&r) == hash_of(s));
 }
 
+/// a text sink recording the bytes it is given
+struct ByteSink {
+    buf: [u8; 8],
+    n: usize,
+}
+impl core::fmt::Write for ByteSink {
+    fn write_str(&mut self, s: &str) -> core::fmt::Result {
+        let b = s.as_bytes();
+        let mut i = 0;
+        while i < b.len() && self.n < 8 {
+            self.buf[self.n] = b[i];
+            self.n += 1;
+            i += 1;
+        }
+        Ok(())
+    }
+}
+
 nd::harnesses! {
     #[kani::unwind(7)] fn c14_from_str_3() { cstring_wellformed::<3>(0) }
     #[kani::unwind(7)] fn c14_from_string_3() { cstring_wellformed::<3>(1) }
@@ -228,6 +246,31 @@ nd::harnesses! {
     #[kani::unwind(7)] fn c14_cstr_borrowed_4() { cstr_borrowed::<4>() }
     #[kani::unwind(8)] fn c14_cstr_borrowed_5() { cstr_borrowed::<5>() }
     #[kani::unwind(9)] fn c14_cstr_borrowed_6() { cstr_borrowed::<6>() }
+
+    /// Formatting (`{}`) an owned or borrowed C string produces exactly its text, multi-byte characters included.
+    #[kani::unwind(12)]
+    fn c14_display_produces_the_text() {
+        use core::fmt::Write;
+        let which: u8 = nd::any();
+        nd::assume(which < 3);
+        let text: &str = match which { 0 => "", 1 => "h\u{e9}", _ => "\u{20ac}a" };
+        let owned = ReprCString::from(text);
+        let mut sink = ByteSink { buf: [0; 8], n: 0 };
+        let borrowed: bool = nd::any();
+        if borrowed {
+            let r: &ReprCStr = core::borrow::Borrow::borrow(&owned);
+            write!(sink, "{}", r).unwrap();
+        } else {
+            write!(sink, "{}", owned).unwrap();
+        }
+        let tb = text.as_bytes();
+        assert!(sink.n == tb.len(), "reads back as that prefix: same byte length");
+        let mut i = 0;
+        while i < tb.len() {
+            assert!(sink.buf[i] == tb[i], "reads back the same text");
+            i += 1;
+        }
+    }
 
     /// Negative twin: claims the buffer keeps bytes after an interior NUL.
     #[kani::unwind(7)]
